@@ -24,6 +24,14 @@ def rule_queue(ctx):
     for need in sorted(allowed):
         f = ctx.fn(need[0])
         ctx.ob(R, f, f.node, need in seen, f"{need[0]} no longer does {need[1]} on _requests", text="required:" + need[1] + ":" + f.name)
+    # the queue never drops an entry by itself: every value stored is an unbounded empty container (a deque with maxlen discards the HEAD
+    # entry on append -- the oldest waiter -- and every later reply is matched against the wrong request)
+    for wf, wn, how in ctx.attr_writers_of("_requests", "AIOKafkaConnection", fields=("conn", "_conn")):
+        if how != "store":
+            continue
+        v = wn.stmt.value if isinstance(wn.stmt, ast.Assign) else None
+        okv = isinstance(v, ast.Call) and unparse(v.func) in ("collections.deque", "deque", "list") and not v.args and not v.keywords or (isinstance(v, ast.List) and not v.elts)
+        ctx.ob(R, wf, wn, okv, f"the in-flight queue is created as `{unparse(v)[:50] if v is not None else '?'}`: it must be an empty, UNBOUNDED queue", text="unbounded:" + wf.name)
     for m in ("send", "_send_sasl_token"):
         fi = ctx.fn(f"{CONN}.{m}")
         c = ctx.cfg(fi)
@@ -79,6 +87,29 @@ def rule_queue(ctx):
         ctx.ob(R, fi, wr[0], ok, "a failed write does not close the connection and raise", text="write-failure")
     nt = [t for t in c.nodes if t.kind == "test" and is_none_test(t.ast) is not None and unparse(is_none_test(t.ast)) == "self._writer"]
     ctx.ob(R, fi, fi.node, bool(nt) and any(n.kind == "raise" and "KafkaConnectionError" in unparse(n.ast.exc) for n in c.reachable([m for m, l in nt[0].succ if l == "T"], include_src=True)), "send on a closed connection does not raise KafkaConnectionError", text="closed-raises")
+
+
+def rule_one_stream(ctx, R="match"):
+    """The reply's body starts where its header ended: header and body are read from ONE stream object, so whatever header form the request
+    selected (v0: correlation id; v1 of flexible versions: correlation id + tagged fields) is consumed before the struct is decoded."""
+    fi = ctx.fn(f"{CONN}._handle_frame")
+    c = ctx.cfg(fi)
+    ph = [n for n in c.calls(attr="parse_response_header")]
+    dc = [n for n in c.calls(attr="decode") if not unparse(n.ast.func.value).startswith(("Int", "ResponseHeader", "struct"))]
+    ctx.anchor(len(ph) == 1 and len(dc) >= 1, "parse_response_header / body decode in _handle_frame")
+    a = arg_of(ph[0].ast, 0)
+    ok, why = isinstance(a, ast.Name), f"the header is parsed from `{unparse(a)[:40]}`"
+    if ok:
+        ds = [d for d in local_defs(c, a.id) if c.path_exists(d, ph[0], exc=False)]
+        dv = def_value(ds[0]) if len(ds) == 1 else None
+        ok = isinstance(dv, ast.Call) and unparse(dv.func) in ("io.BytesIO", "BytesIO") and len(dv.args) == 1
+        why = f"`{a.id}` is not a stream over the frame when the header is parsed (a bytes object is wrapped privately by the header parser: the body's start is then a guess)"
+        for d in dc:
+            b = arg_of(d.ast, 0)
+            same = isinstance(b, ast.Name) and b.id == a.id and not any(c.path_exists(ph[0], x, exc=False) and c.path_exists(x, d, exc=False) for x in local_defs(c, a.id))
+            if ok and not same:
+                ok, why = False, f"the body is decoded from `{unparse(b)[:40]}`, not from the stream the header was read from: a flexible reply's tagged-field section is not skipped"
+    ctx.ob(R, fi, ph[0], ok, f"_handle_frame: {why}", text="header-and-body-one-stream")
 
 
 def rule_match(ctx):
@@ -382,6 +413,7 @@ def run(ctx):
                        "waiters; every transport failure reaches close(); correlation id wrap by interval analysis.")
     rule_queue(ctx)
     rule_match(ctx)
+    rule_one_stream(ctx)
     rule_close(ctx)
     rule_errors_close(ctx)
     rule_wrap(ctx)
